@@ -1024,7 +1024,9 @@ Fixpoint block_visit (c : config) (fuel : nat) (n : node) (t : tstate) {struct f
       | Node (K KArrow _ _) _ =>
           (* visit_mut_arrow_expr: an arrow reached by the block visitor lies outside every block *)
           children (if status_eqb (t_status t) Cancelled then n else arrow_transform n) t
-      | _ => children n t
+      | _ =>
+          (* literals, names, this/super, template elements and scalar fields have no node children in swc's AST *)
+          if leaf n then Some (n, t) else children n t
       end
   end.
 
